@@ -90,6 +90,7 @@ func newVecSUT(rng *rand.Rand, kind string, metric comet.DistanceKind, vg func(d
 		if err := s.idx.Train(nodes); err != nil {
 			return s, g, fmt.Errorf("train: %w", err)
 		}
+		scribbleOver(nodes)
 		s.params += fmt.Sprintf(" ntrain=%d", nTrain)
 	}
 	return s, g, nil
@@ -310,4 +311,19 @@ func checkListingAlts(rep reporter, tag string, l *listing, live map[uint32]bool
 	}
 	checkListing(rep, tag+".no-legal-tie-choice-fits", l, live, e.universes[0], e.scoreFn, nil)
 	return false
+}
+
+// scribbleOver overwrites the caller's training vectors after Train has returned: the buffers belong to the caller,
+// who is free to reuse them; a trained index that still points into them (centroids or codebooks aliasing the
+// training data) changes its answers from here on.
+func scribbleOver(nodes []comet.VectorNode) {
+	for i := range nodes {
+		v := nodes[i].Vector()
+		for j := range v {
+			v[j] = float32(1e6)
+			if (i+j)%2 == 1 {
+				v[j] = -float32(1e6)
+			}
+		}
+	}
 }
